@@ -199,6 +199,16 @@ func runC08(c *Ctx) {
 		}
 	}
 
+	R.Rule("R-giveup-closes", "E2 must-pass-through", "a reply by which the server gives up on the connection (421) is followed, on every path, by Conn.Close before the function returns (in the command loop: by the return that runs the deferred Close)", 4)
+	nGive := 0
+	for _, f := range c.P.AllFuncs() {
+		if !inSmtp(f) {
+			continue
+		}
+		nGive += c.obFollow("421 then Close", f, c.direct("reply:421"), []string{lClose}, nil, nil)
+	}
+	R.Ob("give-up replies/found", "-", nGive >= 3, fmt.Sprintf("%d constant 421 replies", nGive))
+
 	ruleResultOnEveryExit(c)
 
 	R.Rule("R-go-bounded", "E1", "the go statements of the package are the four known ones; delivery goroutines send their result at most once per path on a channel of capacity >= 1", 4)
